@@ -257,11 +257,14 @@ impl Compound {
             }
         }
 
+        // NB: in a product a degree of a scale with a zero point (°C, °F) is
+        // an interval, so only the size of the degree is applied and never
+        // the zero point.
         for (name, state) in &self.names {
             *lhs *= Rational::new(10u32, 1u32).pow(state.prefix * state.power);
 
             if let Some(conversion) = name.conversion() {
-                apply_conversion(state.power, lhs, conversion)?;
+                apply_interval_conversion(state.power, lhs, conversion);
             }
         }
 
@@ -269,7 +272,7 @@ impl Compound {
             *rhs *= Rational::new(10u32, 1u32).pow(state.prefix * state.power);
 
             if let Some(conversion) = name.conversion() {
-                apply_conversion(state.power, rhs, conversion)?;
+                apply_interval_conversion(state.power, rhs, conversion);
             }
         }
 
@@ -331,7 +334,7 @@ impl Compound {
                     // original factor modifier, which we apply to mod_power to
                     // get the original power back. Then we multiply by `-1`
                     // because we want to shed the multiples here.
-                    apply_conversion(-mod_power, out, conversion)?;
+                    apply_interval_conversion(-mod_power, out, conversion);
                 }
             }
 
@@ -530,6 +533,26 @@ impl fmt::Debug for Compound {
 impl fmt::Display for Compound {
     fn fmt(&self, f: &mut fmt::Formatter<'_>) -> fmt::Result {
         self.display(false).fmt(f)
+    }
+}
+
+/// Apply only the size of the unit's degree, which is how a unit with a zero
+/// point takes part in a product.
+fn apply_interval_conversion(pow: i32, ratio: &mut Rational, conversion: Conversion) {
+    let factor = match conversion {
+        Conversion::Methods(methods) => {
+            let mut zero = Rational::new(0u32, 1u32);
+            let mut one = Rational::new(1u32, 1u32);
+            (methods.to)(&mut zero);
+            (methods.to)(&mut one);
+            one - zero
+        }
+        Conversion::Factor(fraction) => Rational::new(fraction.numer, fraction.denom),
+        Conversion::Offset(..) => return,
+    };
+
+    if pow != 0 {
+        *ratio *= factor.pow(pow);
     }
 }
 
